@@ -10,7 +10,7 @@ import os
 import shutil
 
 from .base import Prop
-from .c01 import check_blame
+from .c01 import check_blame, check_commit_note
 from .c06 import compare as twin_compare
 from .. import gen, hist, noteparse
 from ..ledger import HUMAN
@@ -19,10 +19,11 @@ from ..twin import TwinExec, diff_states, observable_state
 
 TARGETS = ["commit", "amend", "rebase", "rebase_continue", "cherry_pick", "reset_soft", "reset_hard",
            "stash_push", "stash_pop", "squash", "checkout_b", "switch", "commit_partial",
-           "push", "fetch", "pull_ff", "pull_rebase"]
+           "push", "fetch", "pull_ff", "pull_rebase", "stash_pop_two", "cherry_pick_after_abort"]
 GIT_KINDS = ["fail:128", "fail:1", "short:0", "short:half", "kill"]
 JOURNAL_KINDS = ["crash", "torn:half", "eio", "enospc"]
-CORRUPT_KINDS = ["truncate_half", "truncate_tail", "truncate_0", "flip_byte", "delete", "garbage", "dup_last_line", "dir"]
+CORRUPT_KINDS = ["truncate_half", "truncate_tail", "truncate_0", "flip_byte", "delete", "garbage", "dup_last_line", "dir",
+                 "bad_utf8_line"]
 
 
 def prefix_ops(g, target):
@@ -103,6 +104,30 @@ def prefix_ops(g, target):
         else:
             yield g.git("stash", "push", "-q")
             yield g.git("stash", "pop", "-q", target=True)
+    elif target == "stash_pop_two":
+        # two stash entries: an older one with AI work, a newer one with a person's work; the newer one is popped
+        yield g.ai_edit(path=path, kinds=["insert", "append"], pos="top")
+        yield g.git("stash", "push", "-q")
+        yield g.human_edit(path=path, kinds=["insert", "append"], pos="top", pre_ckpt=True, max_block=4)
+        yield g.git("stash", "push", "-q")
+        yield g.human_edit(new_file=True)
+        yield from g.commit_all()
+        yield g.git("stash", "pop", "-q", target=True)
+    elif target == "cherry_pick_after_abort":
+        # a cherry-pick of an AI commit stops on a conflict and is given up; then a purely human commit is picked
+        base = g.branch()
+        yield g.git("checkout", "-q", "-b", "src")
+        yield g.ai_edit(path=path, kinds=["insert", "append", "replace"])
+        yield from g.commit_all()
+        yield g.human_edit(new_file=True)
+        yield from g.commit_all()
+        yield g.git("checkout", "-q", base)
+        yield hist.upstream_change(g, "conflict", path, who=HUMAN)
+        yield from g.commit_all()
+        yield g.git("cherry-pick", "src~1")
+        if g.in_progress():
+            yield g.git("cherry-pick", "--abort")
+        yield g.git("cherry-pick", "src", target=True)
     elif target == "squash":
         base = g.branch()
         yield from hist.fam_feature_branch(g, rng.randint(1, 2), path)
@@ -170,6 +195,9 @@ def corrupt(path, kind):
     elif kind == "dup_last_line":
         lines = data.split(b"\n")
         new = data + (lines[-2] if len(lines) > 1 else data)[: 50]
+    elif kind == "bad_utf8_line":
+        # one more line that is not valid UTF-8 (a torn multi-byte character, a stray binary write); the rest stays
+        new = data + (b"" if data.endswith(b"\n") or not data else b"\n") + b"\xff\xfe\xc3 broken\n"
     elif kind == "delete":
         os.remove(path)
         return
@@ -186,7 +214,7 @@ def corrupt(path, kind):
 class C07(Prop):
     id = "C07"
     level = "fault_enumeration"
-    quick_runs, thorough_runs = 51, 1700
+    quick_runs, thorough_runs = 57, 1900
     quick_budget_s, thorough_budget_s = 170, 1800
     rule = ("one task = one sampled scenario (prefix of edits/checkpoints/commits + one wrapped target command of a "
             "hooked kind: commit, partial commit, amend, rebase, rebase --continue after a conflict, cherry-pick, reset "
@@ -260,6 +288,7 @@ class C07(Prop):
         trace = {k: v for k, v in trace.items() if k != "violation"}
         ex = self.make_exec(root, trace)
         ex.init()
+        ex.gen_state["golden_note_ok"] = bool(trace.get("golden_note_ok"))
         fault = trace.get("fault") or {}
         for i, op in enumerate(trace["ops"]):
             if fault.get("before_op") == i:
@@ -346,6 +375,13 @@ class C07(Prop):
         if d or gres.get("code") != ref.get("code"):
             return ({"monitor": "twin.golden", "class": "fault_free_run_differs",
                      "detail": {"argv": target_op["argv"], "diff": d, "codes": [ref.get("code"), gres.get("code")]}}, 1)
+        # is the note of the commit the target produced sound in the fault-free run?  (then it has to stay sound -
+        # or be missing - under every fault: a note that lists lines its commit did not add is invented attribution)
+        from ..engine import in_progress as _inp0
+        repo_b0 = b.repos["r0"]
+        ex.gen_state["golden_note_ok"] = (not _inp0(b.w, repo_b0)) and gstate["HEAD"] != pre_state_b["HEAD"] and \
+            check_commit_note(b, repo_b0, gstate["HEAD"], ex.sessions, two_sided=False) is None
+        trace["golden_note_ok"] = ex.gen_state["golden_note_ok"]
         faults = []
         fam = cfg["fault_family"]
         internal = [c for c in calls if not c["proxied"]]
@@ -389,7 +425,8 @@ class C07(Prop):
         known_db = load_known()
         for k, fault in enumerate(faults):
             evals += 1
-            viol = self.branch(ex, trace, target_op, fault, snapshot=True, follow_up=(k % 3 == 0))
+            viol = self.branch(ex, trace, target_op, fault, snapshot=True,
+                               follow_up=(k % 3 == 0 or cfg["target"] in ("stash_pop", "stash_pop_two", "stash_push")))
             if viol:
                 # a listed finding must not end the enumeration of the other faults of this scenario
                 kf = known_mod.classify(known_db, self.id, dict(trace, fault=fault), viol)
@@ -521,6 +558,8 @@ class C07(Prop):
             from ..engine import in_progress as _inp
             if not _inp(b.w, repo_b):
                 v = check_blame(b, repo_b, ex.sessions, one_sided=True, gitai=False)
+                if not v and ex.gen_state.get("golden_note_ok") and state_b["HEAD"] != ref["pre_b"]["HEAD"]:
+                    v = check_commit_note(b, repo_b, state_b["HEAD"], ex.sessions, two_sided=False)
                 if v:
                     v["monitor"] = "fault.outcome"
                     v["class"] = "attribution_invented_after_fault_" + v["class"]
